@@ -264,7 +264,10 @@ def base_n(obj):
 
 def pos_int(s):
     rt.point("cb:pos_int")
-    v = int(s)
+    try:
+        v = int(s)
+    except OverflowError:  # a well-behaved type function reports every bad value with its declared exception
+        raise ValueError("not a finite number")
     if v <= 0:
         raise ValueError("expected a positive int")
     return v
@@ -277,7 +280,7 @@ def ate_int(s):
     rt.point("cb:ate_int")
     try:
         v = int(s)
-    except (TypeError, ValueError):
+    except (TypeError, ValueError, OverflowError):
         raise argparse.ArgumentTypeError("not an int: %r" % (s,))
     if v < 0:
         raise argparse.ArgumentTypeError("negative")
